@@ -5,8 +5,11 @@ HERE = os.path.dirname(os.path.abspath(__file__))
 VERIF = os.path.dirname(HERE)
 ids = sys.argv[1:] or sorted(d for d in os.listdir(os.path.join(VERIF, 'seeded')) if os.path.isdir(os.path.join(VERIF, 'seeded', d)))
 rows = []
-for s in ids:
-    p = subprocess.run([sys.executable, os.path.join(HERE, 'seedtest.py'), os.path.join(VERIF, 'seeded', s, 'patch.diff')], capture_output=True, text=True)
+from concurrent.futures import ThreadPoolExecutor
+def one(s):
+    return s, subprocess.run([sys.executable, os.path.join(HERE, 'seedtest.py'), os.path.join(VERIF, 'seeded', s, 'patch.diff')], capture_output=True, text=True)
+jobs = int(os.environ.get('SEED_JOBS', '4'))
+for s, p in ThreadPoolExecutor(jobs).map(one, ids):
     truth, res, why = {}, {}, {}
     cur = None
     for l in p.stdout.split('\n'):
